@@ -1,7 +1,7 @@
 """rpms / modules / extra-files documents: dump, load, dump again vs Model/ManifestDocs.v"""
 import copy
 import json
-from suites.common import exc_result, reflect
+from suites.common import api_consistency, exc_result, reflect
 from suites import ops_manifests as OM
 from suites.ops_images import valid_compose
 
@@ -43,6 +43,9 @@ def impl_roundtrip(case):
         text = o.dumps()
     except EXC as e:
         return exc_result(e)
+    api = api_consistency(o, lambda: _new(kind), text)
+    if api:
+        return ["api-inconsistent", api]
     o2 = _new(kind)
     try:
         o2.loads(text)
